@@ -92,7 +92,7 @@ def run(ctx):
         rp = RN.DropReplayer(sg)
         for sk in skeletons.values():
             for rep_i in range(3):      # several draws of the implementation's mask
-                divs = rp.run(sk, lambda key: (table.get(key) or {}).get("obs"), c2)
+                divs = rp.run(sk, lambda key: (json.loads(table[key]) if key in table else None), c2)
                 rep.case("drop:p=%s:" % p + "/".join(cl["a"] for cl in sk))
                 rep.traces += 1
                 for kind, key, msg in divs:
@@ -122,7 +122,7 @@ def replay_drop_file(ctx, rp):
     r = RN.DropReplayer(sg)
     bad = 0
     for _ in range(5):
-        for d in r.run(rp["history"], lambda key: (table.get(key) or {}).get("obs"), dict(c, StatsSet="{}")):
+        for d in r.run(rp["history"], lambda key: (json.loads(table[key]) if key in table else None), dict(c, StatsSet="{}")):
             print("DIVERGENCE", d)
             bad += 1
     if bad:
